@@ -15,7 +15,9 @@ QUALS = [None, ('sch', '', ''), ('my sch', '"', '"'), ('Sch', '`', '`'), ('s""',
 ALIASES = [('', None), ('{w}al', 'al'), ('{w}AS{w}al', 'al'), ('{w}as{w}"al"', 'al'), ('{w}`al`', 'al'),
            ('{w}AS{w}"a b"', 'a b'), ('{w}As{w}Al_2', 'Al_2'), ('{w}as{w}"al"""', 'al""'),
            # an alias spelled exactly like the name it renames ({n} = the written name with its quotes)
-           ('{w}{n}', '{n}'), ('{w}AS{w}{n}', '{n}')]
+           ('{w}{n}', '{n}'), ('{w}AS{w}{n}', '{n}'),
+           # a quoted alias glued to the keyword
+           ('{w}as"al"', 'al'), ('{w}AS`al`', 'al')]
 WS = [' ', '  ', '\n', '\t']
 NEIGH = [('a', 'b'), ('f(1)', 'max(b) m'), ('1', "'s'")]
 # context: template with {X}; {A}/{B} neighbours; {w} whitespace
@@ -40,6 +42,9 @@ CONTEXTS = [
     ('cte-from', 'with{w}w{w}as{w}(select{w}1{w}from{w}{X}){w}select{w}1{w}from{w}w'),
     ('join-subquery-as', 'select{w}1{w}from{w}t1{w}join{w}(select{w}1{w}from{w}{X}){w}as{w}j{w}on{w}1{w}={w}1'),
     ('exists-subquery', 'select{w}1{w}from{w}t{w}where{w}exists{w}(select{w}{X}{w}from{w}u)'),
+    ('order-by-subquery-desc', 'select{w}1{w}from{w}t{w}order{w}by{w}(select{w}{X}{w}from{w}u){w}desc'),
+    ('item-subquery-desc', 'select{w}(select{w}{X}{w}from{w}u){w}desc'),
+    ('order-by-call-asc', 'select{w}1{w}from{w}t{w}order{w}by{w}f((select{w}{X}{w}from{w}u)){w}asc'),
 ]
 
 
